@@ -206,6 +206,7 @@ class Runner:
     def __init__(self, prop, tier, base_seed, runs, jobs):
         self.prop, self.tier, self.base_seed, self.runs, self.jobs = prop, tier, base_seed, runs, jobs
         self.cfg = PROPS[prop]
+        self.kept_samples = 0
         self.work = os.path.join(WORK, prop)
         shutil.rmtree(self.work, ignore_errors=True)
         os.makedirs(self.work, exist_ok=True)
@@ -224,8 +225,17 @@ class Runner:
         res = run_child(plan, wd)
         res.pop("child_output", None)
         keep = res.get("status") not in ("ok",)
+        pl = res.get("plan") or {}
+        res["script_hash"] = hashlib.sha1(json.dumps(pl.get("script"), sort_keys=True).encode()).hexdigest()[:8]
         if not keep:
             shutil.rmtree(wd, ignore_errors=True)
+            # clean runs are kept in memory in a slim form (a thorough batch has up to 100000 of them)
+            res["plan"] = {"seed": pl.get("seed"), "variant": pl.get("variant"), "tape": [0] * 0, "tape_len": len(pl.get("tape") or [])}
+            res.pop("log", None)
+            if self.kept_samples >= 4:
+                res.pop("sample", None)
+            else:
+                self.kept_samples += 1
         return res
 
     def run_all(self, deadline=None):
@@ -375,10 +385,10 @@ def write_evidence(prop, tier, seed, results, wall, viol_count, notes):
         pr = r.get("probes") or {}
         nontrivial = (not need) or any(pr.get(p, 0) > 0 for p in need)
         if r.get("status") in ("ok", "violation") and nontrivial and r.get("sched_sig"):
-            sigs.add(r["sched_sig"] + ":" + hashlib.sha1(json.dumps((r.get("plan") or {}).get("script"), sort_keys=True).encode()).hexdigest()[:8])
+            sigs.add(r["sched_sig"] + ":" + (r.get("script_hash") or hashlib.sha1(json.dumps((r.get("plan") or {}).get("script"), sort_keys=True).encode()).hexdigest()[:8]))
         if len(samples) < 2 and r.get("status") == "ok" and nontrivial:
             pl = r.get("plan") or {}
-            samples.append({"seed": pl.get("seed"), "variant": pl.get("variant"), "tape_len": len(pl.get("tape") or []),
+            samples.append({"seed": pl.get("seed"), "variant": pl.get("variant"), "tape_len": pl.get("tape_len", len(pl.get("tape") or [])),
                             "steps": r.get("steps"), "sim_ms": r.get("sim_ms"), "log_hash": r.get("log_hash"),
                             "probes": r.get("probes"), "stats": r.get("stats"), "scenario": r.get("sample")})
         for x in r.get("real") or []:
